@@ -699,3 +699,24 @@ func genGuid(r *repo, o *out) {
 	})
 	o.def("populateTmpFromGuid", "Bool", fmt.Sprint(tmpFromGuid), "cache.populate names its temp dir \".tmp.unpack.\" + guid.New()")
 }
+
+// genDevModes: the two device-number expressions, verbatim (the Lean model `Rio/Model/DevModes.lean` mirrors them)
+func genDevModes(r *repo, o *out) {
+	ret := func(name string) string {
+		fd := r.funcDecl("fs/osfs", "", name)
+		s := ""
+		ast.Inspect(fd, func(n ast.Node) bool {
+			if rs, ok := n.(*ast.ReturnStmt); ok && s == "" {
+				var parts []string
+				for _, e := range rs.Results {
+					parts = append(parts, r.src(e))
+				}
+				s = strings.Join(parts, " ; ")
+			}
+			return true
+		})
+		return s
+	}
+	o.def("devModesJoinExpr", "String", leanStr(ret("devModesJoin")), "return expression of osfs.devModesJoin(major, minor)")
+	o.def("devModesSplitExpr", "String", leanStr(ret("devModesSplit")), "return expressions of osfs.devModesSplit(rdev) (linux)")
+}
